@@ -251,7 +251,7 @@ func payloadClass(pk string, v *V) int {
 		return 11
 	case "map":
 		return 5
-	case "tmap":
+	case "tmap", "ptmap":
 		return 6
 	case "hand":
 		switch root.Hand {
@@ -599,6 +599,9 @@ func genHistories(e *emitter, r *hc.Rand, n int) {
 						c.Ov[j] = ovTexts[1+g.r.Intn(4)]
 					}
 				}
+			}
+			if g.r.Chance(1, 8) {
+				c.Ov = [3]string{"none", "none", "none"} // the pass-through configuration: nothing is filtered, nothing is rotated
 			}
 			st := HistStep{Cfg: c, PK: "val", V: g.cloneFresh(pool[g.r.Intn(len(pool))])}
 			if g.r.Chance(1, 4) {
